@@ -187,12 +187,14 @@ Proof.
   destruct (f_creat f && f_excl f); auto.
   destruct (nth_error (k_ino s) i) as [[perm data| perm ents | data]|] eqn:En; auto.
   - destruct (f_dir f); auto.
+    destruct (k_unpriv s && _); auto.
     destruct (install _ _ _) as [s' fd] eqn:Ei. cbn [fst]. rewrite (install_eq _ _ _ _ _ Ei).
     apply wf_install.
     + destruct (f_trunc f); auto. eapply wf_set_data; eauto. exact I.
     + cbn [o_ino]. destruct (f_trunc f); cbn [set_ino k_ino]; rewrite ?length_set_nth;
         eapply nth_error_lt; eauto.
   - destruct (writable a); auto. destruct (f_creat f); auto.
+    destruct (k_unpriv s && _); auto.
     destruct (install _ _ _) as [s' fd] eqn:Ei. cbn [fst]. rewrite (install_eq _ _ _ _ _ Ei).
     apply wf_install; auto. cbn. eapply nth_error_lt; eauto.
 Qed.
@@ -201,7 +203,7 @@ Lemma wf_open_inner s p a f mode : wf s -> wf (fst (k_open_inner s p a f mode)).
 Proof.
   intros Hw. unfold k_open_inner.
   destruct (negb (flags_ok a f) || negb (nonempty p)); auto.
-  assert (Hwhole : wf (fst match resolve (k_ino s) (p_cwd (k_cur s)) p with
+  assert (Hwhole : wf (fst match resolve (k_unpriv s) (k_ino s) (p_cwd (k_cur s)) p with
                            | WOk st => open_existing s (top st) a f
                            | WErr e => if f_creat f then (s, ROut) else (s, RErr e)
                            | WOut => (s, ROut)
@@ -211,7 +213,9 @@ Proof.
   destruct (is_dot last || is_dotdot last || trailing_slash p); auto.
   destruct (walk _ _ _) as [st| |]; auto.
   destruct (nth_error (k_ino s) (top st)) as [[| perm ents |]|] eqn:En; auto.
+  destruct (k_unpriv s && negb (may_x perm)); auto.
   destruct (lookup ents last); [apply wf_open_existing; auto|].
+  destruct (f_creat f && k_unpriv s && negb (may_w perm)); auto.
   destruct (f_creat f); auto.
   destruct (install _ _ _) as [s' fd] eqn:Ei. cbn [fst]. rewrite (install_eq _ _ _ _ _ Ei).
   apply wf_install.
@@ -282,10 +286,10 @@ Proof.
 Qed.
 
 (* replacing the processes (same tables) keeps the state well formed *)
-Lemma wf_procs s cur' susp' sk' :
+Lemma wf_procs s cur' susp' sk' u' :
   wf s -> proc_ok (length (k_ofd s)) (k_ino s) cur' ->
   Forall (proc_ok (length (k_ofd s)) (k_ino s)) susp' ->
-  wf (mkK (k_ino s) (k_ofd s) cur' susp' sk').
+  wf (mkK (k_ino s) (k_ofd s) cur' susp' sk' u').
 Proof.
   intros (H1 & H2 & H3 & H4) Hc Hs. unfold wf, all_procs. cbn [k_ino k_ofd k_cur k_susp].
   repeat split; auto.
@@ -323,6 +327,9 @@ Proof.
     destruct (signal_ancestors _ _ _) eqn:E; auto.
     apply wf_signal_self; auto. eapply signal_ancestors_ok; [apply wf_susp; auto | eauto].
 Qed.
+
+Lemma wf_reskip s x u' : wf s -> wf (mkK (k_ino s) (k_ofd s) (k_cur s) (k_susp s) x u').
+Proof. intros Hw. apply (wf_procs s (k_cur s) (k_susp s)); auto; [apply wf_cur | apply wf_susp]; auto. Qed.
 
 Lemma step_live_preserves_wf s o : wf s -> wf (fst (step_live s o)).
 Proof.
@@ -365,11 +372,12 @@ Proof.
   - unfold k_umask. destruct (N.ltb 511 m); auto. cbn [fst].
     apply wf_set_cur; auto. destruct (wf_cur s Hw) as (Ha & Hb). split; auto.
   - unfold k_chdir. destruct (resolve _ _ _) as [st| |]; auto.
-    destruct (is_dir (k_ino s) (top st)) eqn:Ed; auto. cbn [fst]. apply wf_chdir; auto.
+    destruct (is_dir (k_ino s) (top st)) eqn:Ed; auto.
+    destruct (k_unpriv s && _); auto. cbn [fst]. apply wf_chdir; auto.
   - auto.
   - apply wf_pipe; auto.
-  - unfold k_readdir. destruct (resolve _ _ _); auto; [destruct (nth_error _ _) as [[]|]; auto|];
-      destruct (can_alloc s 0); auto.
+  - unfold k_readdir. destruct (resolve _ _ _ _); auto; [destruct (nth_error _ _) as [[]|]; auto|];
+      destruct (can_alloc s 0); cbn [negb]; auto. destruct (k_unpriv s && _); auto.
   - unfold k_getfd. destruct (fd_get _ _); auto.
   - unfold k_setfd. destruct (fd_get (fds s) fd) as [e|] eqn:G; auto. cbn [fst].
     apply wf_set_fds; auto. apply fds_ok_put; [apply wf_fds; auto|]. cbn.
@@ -378,6 +386,16 @@ Proof.
     destruct (o_rd o), (o_wr o); auto.
   - unfold k_setrlimit. destruct (N.eqb n 0 || N.ltb default_limit n); auto. cbn [fst].
     apply wf_set_cur; auto. destruct (wf_cur s Hw) as (Ha & Hb). split; auto.
+  - unfold k_droppriv. cbn [fst]. apply wf_reskip; auto.
+  - unfold k_chmod. destruct (N.ltb 511 mode); auto.
+    destruct (resolve _ _ _ _) as [st| |]; auto.
+    destruct (nth_error (k_ino s) (top st)) as [[pm data| pm ents | data]|] eqn:En; auto; cbn [fst].
+    + eapply wf_set_data; eauto. exact I.
+    + apply wf_set_ino_gen; auto.
+      * rewrite length_set_nth; lia.
+      * rewrite length_set_nth. apply Forall_set_nth; [apply Hw|].
+        exact (wf_ino_ok s _ _ Hw En).
+      * intros j. apply is_dir_set_nth. intros _. exact I.
   - unfold k_setpgid0. cbn [fst]. apply wf_set_cur; auto.
     destruct (wf_cur s Hw) as (Ha & Hb). split; auto.
   - apply wf_kill; auto.
@@ -393,9 +411,6 @@ Proof.
   - apply wf_fork; auto.
   - apply wf_exit; auto.
 Qed.
-
-Lemma wf_reskip s x : wf s -> wf (mkK (k_ino s) (k_ofd s) (k_cur s) (k_susp s) x).
-Proof. intros Hw. apply (wf_procs s (k_cur s) (k_susp s)); auto; [apply wf_cur | apply wf_susp]; auto. Qed.
 
 Lemma step_preserves_wf_l s o : wf s -> wf (fst (step s o)).
 Proof.
@@ -638,7 +653,7 @@ Lemma group_kill_child_dies_l s parent rest sig :
   let s1 := fst (k_kill s TGroup0 sig) in
   snd (k_kill s TGroup0 sig) = RSkip /\
   (forall o, o <> OFork -> o <> OExit -> step s1 o = (s1, RSkip)) /\
-  fst (step s1 OExit) = mkK (k_ino s) (k_ofd s) parent rest None /\
+  fst (step s1 OExit) = mkK (k_ino s) (k_ofd s) parent rest None (k_unpriv s) /\
   snd (step s1 OExit) = RChild (CSignaled sig).
 Proof.
   intros Hn Hsusp Hs Hst Hm Hd Ha. unfold k_kill.
@@ -669,4 +684,45 @@ Proof.
   assert (E : negb (N.ltb sig nsig) = false) by lia. rewrite E.
   assert (E2 : N.eqb (fst (p_id (k_cur s))) (snd (p_id (k_cur s))) = false) by (apply N.eqb_neq; auto).
   rewrite E2. reflexivity.
+Qed.
+
+(* ---- permission bits (unprivileged owner) --------------------------------------------------------------- *)
+
+(* no component is looked up in a directory the process may not search *)
+Lemma walk_needs_search_l ino st c cs perm ents :
+  nth_error ino (top st) = Some (IDir perm ents) -> may_x perm = false ->
+  walk true ino st (c :: cs) = WErr EACCES.
+Proof. intros En Hx. cbn. rewrite En, Hx. reflexivity. Qed.
+
+(* a privileged process is never refused *)
+Lemma walk_privileged_l ino : forall cs st e, walk false ino st cs = WErr e -> e <> EACCES.
+Proof.
+  induction cs as [|c cs IH]; intros st e H; cbn in H; try discriminate.
+  destruct (nth_error ino (top st)) as [[| perm ents |]|]; try discriminate.
+  - inversion H; discriminate.
+  - cbn [andb] in H. destruct (is_dot c); [eapply IH; eauto|].
+    destruct (is_dotdot c). { destruct st; [discriminate | eapply IH; eauto]. }
+    destruct (lookup ents c); [eapply IH; eauto | inversion H; discriminate].
+  - inversion H; discriminate.
+Qed.
+
+(* opening a file needs the owner's read / write bit *)
+Lemma open_existing_denied_l s i a f perm data :
+  k_unpriv s = true -> f_creat f && f_excl f = false -> f_dir f = false ->
+  nth_error (k_ino s) i = Some (IReg perm data) ->
+  (readable a && negb (may_r perm)) || (writable a && negb (may_w perm)) = true ->
+  open_existing s i a f = (s, RErr EACCES).
+Proof.
+  intros Hu Hc Hd En Hp. unfold open_existing. rewrite Hc, En, Hd, Hu, Hp. reflexivity.
+Qed.
+
+(* and succeeds exactly as for a privileged process when the bits allow it *)
+Lemma open_existing_allowed_l s i a f perm data :
+  f_creat f && f_excl f = false -> f_dir f = false ->
+  nth_error (k_ino s) i = Some (IReg perm data) ->
+  (readable a && negb (may_r perm)) || (writable a && negb (may_w perm)) = false ->
+  exists s' fd, open_existing s i a f = (s', RFd fd).
+Proof.
+  intros Hc Hd En Hp. unfold open_existing. rewrite Hc, En, Hd, Hp, andb_false_r.
+  destruct (install _ _ _) as [s' fd]. eauto.
 Qed.
